@@ -333,9 +333,86 @@ func fileAmplifies(data []byte) bool {
 	}
 	s, err := ref.ParseSchema(sj)
 	if err != nil {
-		return false
+		// not a schema the reference parser accepts (an edited document: a fixed
+		// without a size, a record without fields ...): a reader that makes something
+		// of it all the same may arrive at zero-width items, so the document is read
+		// leniently, every doubt counting as width zero
+		return lenientAmplifies(sj)
 	}
 	return amplifies(s) || minWidth(s) == 0
+}
+
+// lenientAmplifies: could ANY reading of this JSON document hold an array whose
+// items take no bytes, or be a zero-width record at the top?
+func lenientAmplifies(doc []byte) bool {
+	var root interface{}
+	if json.Unmarshal(doc, &root) != nil {
+		return false
+	}
+	amp := false
+	var width func(v interface{}) int
+	width = func(v interface{}) int {
+		switch x := v.(type) {
+		case string:
+			switch x {
+			case "boolean", "int", "long", "bytes", "string":
+				return 1
+			case "float":
+				return 4
+			case "double":
+				return 8
+			}
+			return 0 // null, a name (of a type that may be zero-width), anything else
+		case []interface{}:
+			if len(x) == 0 {
+				return 0
+			}
+			m := 1 << 30
+			for _, b := range x {
+				if w := width(b); w < m {
+					m = w
+				}
+			}
+			return m + 1
+		case map[string]interface{}:
+			t, _ := x["type"].(string)
+			switch t {
+			case "record", "error":
+				total := 0
+				fields, _ := x["fields"].([]interface{})
+				for _, f := range fields {
+					if fm, ok := f.(map[string]interface{}); ok {
+						total += width(fm["type"])
+					}
+				}
+				return total
+			case "array":
+				if width(x["items"]) == 0 {
+					amp = true
+				}
+				return 1
+			case "map":
+				width(x["values"])
+				return 1
+			case "fixed":
+				if n, ok := x["size"].(float64); ok && n >= 1 {
+					return int(n)
+				}
+				return 0
+			case "enum":
+				return 1
+			case "":
+				if inner, ok := x["type"]; ok {
+					return width(inner)
+				}
+				return 0
+			}
+			return width(t)
+		}
+		return 0
+	}
+	top := width(root)
+	return amp || top == 0
 }
 
 var c06Excluded int64
